@@ -447,6 +447,7 @@ pub fn property() -> Property {
                 name: "random-sequences",
                 rule: "see property rule",
                 cases: (600_000, 2_000_000),
+                fuzz_decode: Some(crate::fuzzdec::c17_case),
                 strategy: rand_strategy,
                 check: check_rand,
                 required_classes: &["refusal-overflow", "refusal-undefined-id", "refusal-occupied-slot", "new_frag-replaces-slot", "save-aliasing-take-right-take"],
